@@ -23,6 +23,8 @@ func init() {
 		Run: runC19,
 	})
 	addMutants("C19",
+		mutant{"WriteTo error path skips Consume", "byte_buffer.go",
+			"\t\tn, err = w.Write(b.data[b.si+writtenBytes : b.ri])\n\t\tif err != nil {\n\t\t\tbreak\n\t\t}", "\t\tn, err = w.Write(b.data[b.si+writtenBytes : b.ri])\n\t\tif err != nil {\n\t\t\treturn int64(writtenBytes), err\n\t\t}", "C19-R4"},
 		mutant{"length limit removed", "codec/frame/frame.go",
 			"\tif payloadLen > MaxPayloadLength {\n\t\treturn nil, ErrPayloadLengthOverflow\n\t}\n", "", "C19-R1"},
 		mutant{"limit checked after buffering", "codec/frame/frame.go",
@@ -542,6 +544,15 @@ func runC19(c *Ctx) {
 				}
 			})
 			c.check(good, fn, "blocking write", fn.Pos(), "resumes after the bytes already written, consumes the total", why+": after a short write bytes are re-sent or left behind")
+			// whatever is reported as written has been consumed: every return that does not report the constant 0 is
+			// reached only through Consume (a short write followed by an error must not leave the written bytes readable)
+			for _, r := range returnsOf(fn) {
+				if len(r.Results) == 0 || isConstInt(r.Results[0], 0) {
+					continue
+				}
+				skips := reachableAvoiding(r, func(in ssa.Instruction) bool { return doesDeep(in, func(x ssa.Instruction) bool { return isCallToFn(x, consume) }) })
+				c.check(!skips, fn, "reported bytes are consumed", exitPos(r), "every exit that reports written bytes passes Consume", "WriteTo can return a written count without consuming those bytes from the read area (error after a short write): they are handed out again and reach the peer twice")
+			}
 		}
 		// ReadFrom / AsyncReadFrom
 		for _, name := range []string{"ReadFrom", "AsyncReadFrom"} {
